@@ -52,6 +52,9 @@ const (
 	// DeliverThenAgain delivers a contribution and then a second copy changed by Msg.Again (the sender sees the second
 	// reply).
 	DeliverThenAgain
+	// DeliverTwiceFirstReply delivers the message twice; the sender sees the reply to the first copy (what the second
+	// copy is answered is lost).
+	DeliverTwiceFirstReply
 )
 
 // Cluster is a set of real Dirk instances wired through their real receiver handlers.
@@ -300,6 +303,9 @@ func (s *clusterSender) Prepare(_ context.Context, peer *core.Endpoint, account 
 	if act == DeliverTwice {
 		_, err = dst.Receiver.Prepare(s.ctx(), wire)
 	}
+	if act == DeliverTwiceFirstReply {
+		_, _ = dst.Receiver.Prepare(s.ctx(), wire)
+	}
 	if act == DeliverThenError {
 		return errors.New("reply lost")
 	}
@@ -319,6 +325,9 @@ func (s *clusterSender) Execute(_ context.Context, peer *core.Endpoint, account 
 	_, err = dst.Receiver.Execute(s.ctx(), wire)
 	if act == DeliverTwice {
 		_, err = dst.Receiver.Execute(s.ctx(), wire)
+	}
+	if act == DeliverTwiceFirstReply {
+		_, _ = dst.Receiver.Execute(s.ctx(), wire)
 	}
 	if act == DeliverThenError {
 		return errors.New("reply lost")
@@ -400,6 +409,9 @@ func (s *clusterSender) SendContribution(_ context.Context, peer *core.Endpoint,
 	res, err := dst.Receiver.Contribute(s.ctx(), wire)
 	if act == DeliverTwice {
 		res, err = dst.Receiver.Contribute(s.ctx(), wire)
+	}
+	if act == DeliverTwiceFirstReply {
+		_, _ = dst.Receiver.Contribute(s.ctx(), wire)
 	}
 	if act == DeliverThenAgain && m.Again != nil {
 		sec2 := *m.Secret
